@@ -223,6 +223,23 @@ func c15Signed(shard, nshards int) vh.Unit {
 			calls = append(calls, vh.NewCall("pool_addNode", W, nn(), node))
 		}
 		calls = append(calls, vh.NewCall("pool_withdraw", W, nn(), nil))
+		// every numeric field of every request, at any depth, at the extremes of its type
+		for _, ep := range vh.SignedEndpoints {
+			owner := C
+			if ep == "vipnode_host" {
+				owner = H
+			}
+			if vh.IsWalletEndpoint(ep) {
+				owner = W
+			}
+			_, alts := vh.NumericExtremes(vh.DefaultParam(ep, H.NodeID))
+			for _, a := range alts {
+				calls = append(calls, vh.NewCall(ep, owner, nn(), a))
+				if ep == "vipnode_connect" {
+					calls = append(calls, vh.NewCall(ep, H, nn(), a))
+				}
+			}
+		}
 		for i, c := range calls {
 			if i%nshards != shard {
 				continue
@@ -277,6 +294,8 @@ func c15Envelopes() vh.Unit {
 				}
 			}
 		}
+		var repeat = 1       // how many times the hostile reply is sent
+		var solicited = true // whether a caller is waiting for a reply when it arrives
 		run := func(kind, text string, isReply bool) {
 			var w *vh.RPCWorld
 			var callErr, pingErr error
@@ -289,14 +308,17 @@ func c15Envelopes() vh.Unit {
 					// A waits for the reply to its request #1; B's side is played by the harness
 					ctx, cancel := vsched.WithTimeout(context.Background(), 5*time.Second)
 					defer cancel()
-					vsched.GoMain("waiting-caller", func() {
-						callErr = w.A.Call(ctx, &callRes, "echo", "tok")
+					if solicited {
+						vsched.GoMain("waiting-caller", func() {
+							callErr = w.A.Call(ctx, &callRes, "echo", "tok")
+							callDone = true
+						})
+						vsched.Yield("let-caller-send")
+					} else {
 						callDone = true
-					})
-					vsched.Yield("let-caller-send")
-					w.CA.InjectIncoming([]byte(text))
-					if text2 := text; strings.Contains(text, `"id":1`) {
-						_ = text2
+					}
+					for i := 0; i < repeat; i++ {
+						w.CA.InjectIncoming([]byte(text))
 					}
 				} else {
 					w.CB.InjectIncoming([]byte(text)) // arrives at B as if A had sent it
@@ -313,6 +335,9 @@ func c15Envelopes() vh.Unit {
 			u.R.Traces++
 			u.Observe(fmt.Sprintf("%s call=%v/%v ping=%v serveA=%v serveB=%v", kind, callRes, callErr != nil, pingErr != nil, w.ServeErr[0] != nil, w.ServeErr[1] != nil))
 			desc := fmt.Sprintf("%s %s", kind, abbreviate(text))
+			if isReply && (repeat > 1 || !solicited) {
+				desc = fmt.Sprintf("%s sent %d times (a caller waiting: %v)", desc, repeat, solicited)
+			}
 			switch {
 			case s.Panic != nil:
 				u.Violate("hostile-"+kind+"/panic", fmt.Sprintf("%s: panic: %v\n%s", desc, s.Panic, firstN(s.PanicStack, 1200)), nil)
@@ -334,6 +359,26 @@ func c15Envelopes() vh.Unit {
 		for _, r := range replies {
 			run("reply", r, true)
 		}
+		// the same replies unsolicited and repeated: whatever a peer sends, and however often, only
+		// its own connection may suffer - nobody calling over it may be left hanging
+		for _, solicited = range []bool{true, false} {
+			for _, repeat = range []int{2, 3} {
+				for i, r := range replies {
+					if !u.Thorough() && i%5 != 2 && i%25 != 0 {
+						continue
+					}
+					run("reply", r, true)
+				}
+			}
+		}
+		repeat, solicited = 1, false
+		for i, r := range replies {
+			if !u.Thorough() && i%5 != 2 {
+				continue
+			}
+			run("reply", r, true)
+		}
+		repeat, solicited = 1, true
 		u.Sample(envelopes[4])
 		u.Sample(replies[7])
 	}}
